@@ -320,9 +320,9 @@ def search_candidates(h, upto):
         d = dicts[i]
         pool = abbrs + (['foo', 'm10', 'p1.5'] if d.get('type') == 'stylesheet' else ['p*', 'div', '.b>._e'])
         for a in pool[:6]:
-            out.append({'dicts': dicts, 'ncaches': h.get('ncaches', 0), 'objs': h.get('objs', []), 'calls': prefix,
-                        'probe': {'abbr': a, 'via': 'dict', 'd': i}})
+            out.append({'dicts': dicts, 'globals': h.get('globals', []), 'ncaches': h.get('ncaches', 0), 'objs': h.get('objs', []),
+                        'calls': prefix, 'probe': {'abbr': a, 'via': 'dict', 'd': i}})
             if i < base_n and i in h.get('objs', []):
-                out.append({'dicts': dicts, 'ncaches': h.get('ncaches', 0), 'objs': h.get('objs', []), 'calls': prefix,
-                            'probe': {'abbr': a, 'via': 'obj', 'd': h['objs'].index(i)}})
+                out.append({'dicts': dicts, 'globals': h.get('globals', []), 'ncaches': h.get('ncaches', 0), 'objs': h.get('objs', []),
+                            'calls': prefix, 'probe': {'abbr': a, 'via': 'obj', 'd': h['objs'].index(i)}})
     return out
